@@ -266,6 +266,8 @@ int KSI_CTX_new(KSI_CTX **context) {
 		res = KSI_OUT_OF_MEMORY;
 		goto cleanup;
 	}
+	/* Make the partially constructed context safe for KSI_CTX_free. */
+	memset(ctx, 0, sizeof(*ctx));
 	/* Init error stack. */
 	ctx->errors_size = KSI_ERR_STACK_LEN;
 	ctx->errors = KSI_malloc(sizeof(KSI_ERR) * ctx->errors_size);
